@@ -71,14 +71,13 @@ Theorem id_stable_store_load : forall fuel s vs, wt_struct S E fuel s vs -> full
   (Z.of_nat (length (encode_struct S E fuel s vs)) < 2^62)%Z ->
   let stored := encode_struct S E fuel s vs in
   exists v', Decode S E fuel s stored = Ok v' /\
-             hash stored = id_of fuel s vs /\            (* ID assigned by the getter *)
              id_of fuel s v' = id_of fuel s vs /\         (* ID after Init() of the loaded value *)
              encode_struct S E fuel s v' = stored.        (* storing it again writes the same bytes *)
 Proof.
   intros fuel s vs Hwt Hfull Hinc Hs stored.
   exists (canon_struct S E fuel s vs). split; [apply decode_encode; auto|].
   assert (Hc : encode_struct S E fuel s (canon_struct S E fuel s vs) = stored) by (apply canon_encode; assumption).
-  split; [reflexivity|]. split; [unfold id_of; rewrite Hc; reflexivity|exact Hc].
+  split; [unfold id_of; rewrite Hc; reflexivity|exact Hc].
 Qed.
 
 (* transactions are loaded with NewTransaction = DecodeStrict, then ID := hash(Encode(decoded)) *)
@@ -94,6 +93,18 @@ Proof.
   exists (canon_struct S E (Datatypes.S fuel) s vs). split; [apply decode_strict_encode; auto|].
   assert (Hc : encode_struct S E (Datatypes.S fuel) s (canon_struct S E (Datatypes.S fuel) s vs) = stored) by (apply canon_encode; assumption).
   split; [unfold id_of; rewrite Hc; reflexivity|exact Hc].
+Qed.
+
+(* "encoding is deterministic": Encode is a function of the value, and more: two well-typed values without nil nested messages
+   that are equal up to the canonical form (NFC normalisation of strings) have the same encoding, hence the same ID *)
+Theorem encode_deterministic : forall fuel s v1 v2, wt_struct S E fuel s v1 -> wt_struct S E fuel s v2 ->
+  full fuel v1 -> full fuel v2 -> canon_struct S E fuel s v1 = canon_struct S E fuel s v2 ->
+  encode_struct S E fuel s v1 = encode_struct S E fuel s v2 /\ id_of fuel s v1 = id_of fuel s v2.
+Proof.
+  intros fuel s v1 v2 W1 W2 F1 F2 Hc.
+  assert (Heq : encode_struct S E fuel s v1 = encode_struct S E fuel s v2).
+  { rewrite <- (canon_encode fuel s v1 W1 F1), <- (canon_encode fuel s v2 W2 F2), Hc. reflexivity. }
+  split; [exact Heq|unfold id_of; rewrite Heq; reflexivity].
 Qed.
 
 End Stable.
